@@ -759,14 +759,11 @@ theorem kindStr_eq_iff (c c' : Cfg)
     (hk' : [Gen.kind_and, Gen.kind_or, Gen.kind_not, Gen.kind_list, Gen.kind_basic].contains c'.kind = true) :
     c.kindStr = c'.kindStr ↔ sameKind c c' = true := by
   unfold Cfg.kindStr sameKind
-  generalize Gen.cfgFlag_positive c.opt Gen.flag_cfold = b
-  generalize Gen.cfgFlag_positive c'.opt Gen.flag_cfold = b'
   generalize c.kind = k at *
   generalize c'.kind = k' at *
   simp only [Gen.kind_and, Gen.kind_or, Gen.kind_not, Gen.kind_list, Gen.kind_basic, List.contains_cons, List.contains_nil,
     Bool.or_false, Bool.or_eq_true, beq_iff_eq] at hk hk'
-  rcases hk with h | h | h | h | h <;> rcases hk' with h' | h' | h' | h' | h' <;> subst h <;> subst h' <;>
-    cases b <;> cases b' <;> decide
+  rcases hk with h | h | h | h | h <;> rcases hk' with h' | h' | h' | h' | h' <;> subst h <;> subst h' <;> decide
 
 theorem condHead_none_iff (kw : Text) (op : Op) (kw' : Text) (op' : Op) :
     condHead kw op kw' op' = none ↔ (kw = kw' ∧ sameOp op op' = true) := by
